@@ -94,6 +94,7 @@ type c16ObsCase struct {
 	Round    uint8           `json:"round"`
 	Pre      []c16Pre        `json:"pre,omitempty"`
 	Heads    []c16Head       `json:"heads"`
+	Post     []c16Pre        `json:"post,omitempty"` // accepts / logs that arrive AFTER the last head was sampled and before the observation
 	Observed *c16ObsObserved `json:"observed,omitempty"`
 }
 
@@ -376,6 +377,7 @@ func runObsCase(t *testing.T, c *c16ObsCase) {
 			blocks = append(blocks, h.Block)
 			ids = append(ids, h.IDs...)
 		}
+		applyPre(t, nd, c.Post)
 		ob.Pend = pendTable(nd, blocks, ids)
 		b, oerr := nd.plugin.Observation(context.Background(), ocr2types.ReportTimestamp{Epoch: c.Epoch, Round: c.Round}, nil)
 		ob.Err = oerr != nil
@@ -659,6 +661,14 @@ func obsBoundary() []c16ObsCase {
 	add(c16ObsCase{Family: "all-pending", Pre: []c16Pre{{Op: "accept", Block: "50", ID: "1"}, {Op: "accept", Block: "50", ID: "2"}}, Heads: []c16Head{{Block: "55", IDs: ids(2)}}})
 	add(c16ObsCase{Family: "pending-released-by-perform", Pre: []c16Pre{{Op: "accept", Block: "50", ID: "1"}, {Op: "perform", Block: "50", ID: "1", TBlock: "54", Confs: 1}}, Heads: []c16Head{{Block: "55", IDs: ids(1)}}})
 	add(c16ObsCase{Family: "pending-perform-at-head", Pre: []c16Pre{{Op: "accept", Block: "50", ID: "1"}, {Op: "perform", Block: "50", ID: "1", TBlock: "55", Confs: 1}}, Heads: []c16Head{{Block: "55", IDs: ids(1)}}})
+	// a report for the staged id is accepted between the sampling of the head and the observation (several OCR rounds
+	// per head): the id is in flight when the observation is built
+	add(c16ObsCase{Family: "accepted-after-sampling", Heads: []c16Head{{Block: "55", IDs: ids(1)}}, Post: []c16Pre{{Op: "accept", Block: "55", ID: "1"}}})
+	add(c16ObsCase{Family: "accepted-after-sampling", Heads: []c16Head{{Block: "55", IDs: ids(3), Script: inel("1", "3")}}, Post: []c16Pre{{Op: "accept", Block: "54", ID: "2"}}})
+	add(c16ObsCase{Family: "accepted-after-sampling-then-performed", Heads: []c16Head{{Block: "55", IDs: ids(1)}},
+		Post: []c16Pre{{Op: "accept", Block: "55", ID: "1"}, {Op: "perform", Block: "55", ID: "1", TBlock: "54", Confs: 1}}})
+	add(c16ObsCase{Family: "accepted-after-sampling-then-performed-at-head", Heads: []c16Head{{Block: "55", IDs: ids(1)}},
+		Post: []c16Pre{{Op: "accept", Block: "55", ID: "1"}, {Op: "perform", Block: "55", ID: "1", TBlock: "55", Confs: 1}}})
 	add(c16ObsCase{Family: "second-head-replaces", Heads: []c16Head{{Block: "55", IDs: ids(3), Script: inel("2", "3")}, {Block: "56", IDs: ids(3), Script: inel("1", "2")}}})
 	add(c16ObsCase{Family: "second-head-none-eligible", Heads: []c16Head{{Block: "55", IDs: ids(3)}, {Block: "56", IDs: ids(3), Script: inel("1", "2", "3")}}})
 	add(c16ObsCase{Family: "second-head-runner-error", Heads: []c16Head{{Block: "55", IDs: ids(3), Script: inel("2", "3")}, {Block: "56", IDs: ids(3), Mode: runErr}}})
@@ -699,6 +709,9 @@ func obsRandom(r *Rng) c16ObsCase {
 		case 1:
 			c.Pre = append(c.Pre, c16Pre{Op: "stale", Block: fmt.Sprintf("%d", cb), ID: id, TBlock: "0", Confs: int64(r.Intn(3))})
 		}
+	}
+	if len(c.Pre) > 0 && r.Chance(1, 3) {
+		c.Post, c.Pre = c.Pre, nil // the same accepts / logs, but after the heads were sampled
 	}
 	for hN := 1 + r.Intn(3); hN > 0; hN-- {
 		h := c16Head{Block: fmt.Sprintf("%d", base), IDs: all, Script: map[string]script{}}
@@ -819,4 +832,48 @@ func TestC16(t *testing.T) {
 			"property": "C16", "part": "observation", "seed": EnvSeed(), "cases": obss, "families": fam, "sizes": sizes,
 		})
 	}
+}
+
+// TestC17Obs: the observation clause of C17 ("after a key is accepted the upkeep id is filtered from observations ...
+// until the right log arrives") on the real polling observer + real coordinator: the observation cases of C16 with
+// their accepts and logs placed before AND after the sampling of the head.  Same model, same checker (oc_bad: an id in
+// flight at observation time is not listed).
+func TestC17Obs(t *testing.T) {
+	dir := OutDir(t, "C17")
+	var obss []c16ObsCase
+	if rf := ReplayFile(); rf != "" {
+		obss = LoadReplayCases[c16ObsCase](t, rf)
+	} else {
+		for _, c := range obsBoundary() {
+			if len(c.Pre)+len(c.Post) > 0 {
+				obss = append(obss, c)
+			}
+		}
+		r := NewRng(EnvSeed() + 17)
+		for i := 0; i < EnvInt("VERIF_N", 120); i++ {
+			c := obsRandom(r)
+			if len(c.Pre)+len(c.Post) > 0 {
+				obss = append(obss, c)
+			}
+		}
+	}
+	cf := NewCaseFile("C17", "Base.Util", "Model.V2")
+	cf.Prelude = "From Coq Require Import String.\nOpen Scope string_scope.\nOpen Scope N_scope."
+	fam := map[string]int{}
+	for i := range obss {
+		runObsCase(t, &obss[i])
+		if obss[i].Observed == nil {
+			t.Fatalf("observation case %d (%s) produced no observation", i, obss[i].Family)
+		}
+		cf.Add(obsCaseTerm(obss[i]))
+		fam[obss[i].Family]++
+	}
+	cf.Write(t, dir, "cases_obsfilter.v", "obs_case", [][2]string{
+		{"mism", "find_idx oc_mism cases"},
+		{"bad", "find_idx oc_bad cases"},
+		{"nontriv", "find_idx oc_nontriv cases"},
+	})
+	WriteJSON(t, filepath.Join(dir, "cases_obsfilter.json"), map[string]any{
+		"property": "C17", "part": "observation filter", "seed": EnvSeed(), "cases": obss, "families": fam,
+	})
 }
